@@ -380,8 +380,10 @@ class PCovR(_BasePCA, LinearModel):
             self.explained_variance_ / self.explained_variance_.sum()
         )
 
-        S_sqrt = np.diagflat([np.sqrt(s) if s > self.tol else 0.0 for s in S])
-        S_sqrt_inv = np.diagflat([1.0 / np.sqrt(s) if s > self.tol else 0.0 for s in S])
+        # eigenvalues that are rounding noise relative to the largest one are dropped
+        S_tol = self.tol * max(1.0, np.max(S))
+        S_sqrt = np.diagflat([np.sqrt(s) if s > S_tol else 0.0 for s in S])
+        S_sqrt_inv = np.diagflat([1.0 / np.sqrt(s) if s > S_tol else 0.0 for s in S])
         self.pxt_ = np.linalg.multi_dot([iCsqrt, Vt.T, S_sqrt])
         self.ptx_ = np.linalg.multi_dot([S_sqrt_inv, Vt, Csqrt])
         self.pty_ = np.linalg.multi_dot([S_sqrt_inv, Vt, iCsqrt, X.T, Y])
@@ -427,7 +429,9 @@ class PCovR(_BasePCA, LinearModel):
         )
 
         P = (self.mixing * X.T) + (1.0 - self.mixing) * W @ Yhat.T
-        S_sqrt_inv = np.diagflat([1.0 / np.sqrt(s) if s > self.tol else 0.0 for s in S])
+        # eigenvalues that are rounding noise relative to the largest one are dropped
+        S_tol = self.tol * max(1.0, np.max(S))
+        S_sqrt_inv = np.diagflat([1.0 / np.sqrt(s) if s > S_tol else 0.0 for s in S])
         T = Vt.T @ S_sqrt_inv
 
         self.pxt_ = P @ T
